@@ -1,3 +1,185 @@
 import LocustModel.Proto
-/- Driver stub for C10 (replaced when the property's model is built). -/
-def main : IO Unit := LM.Proto.runDriver fun _ => "?\t?"
+import LocustModel.Conc.Place
+/-
+  Driver for C10.  Input lines (harness/src/bin/c10.rs), `key=value` tokens after the two head tokens:
+    place <label> st= ev= cf= pre= buf= x= two= mid= q= ing2= comp= hit= q1= i2= q2= fl= fin=
+    hold  <upto>  st= ev= rs= cf= pre= buf= x= mid= q= comp= hit= qh= fl= fin=
+    stress th= in= qr= st= mode= nq= bad= badq= first= fl= fin=
+  Output:  <model> TAB <spec> [TAB <known-finding-id>]
+    model  place: `q1=… i2=… q2=… fl=… fin=…`, hold: `qh=… fl=… fin=…` — what the interleaving model (Conc/Flush: content,
+           Conc/Cols: column lookups) predicts.  Up to and including the first predicted query fault the fields are
+           predictions; after a fault a worker thread is gone and the rest depends on the scheduler (C11's model), so the
+           remaining fields repeat the observation.  `?` for stress lines, unreached labels and undetermined scenarios.
+    spec   `OK` / `BAD <why>`: every query answer must be `ok` with exactly the rows of the first k batches of the
+           ingestion order, k ≥ the number of batches acknowledged before the query began (each batch whole, none twice);
+           the second ingestion must complete; after release the flush completes and the final query shows everything.
+    known  id of the open finding whose classifier covers the case.
+-/
+namespace LM.DrvC10
+open LM LM.Proto LM.Conc.Flush LM.Conc.Cols LM.Conc.Place
+
+def kv (toks : List String) (k : String) : Option String :=
+  toks.findSome? fun t =>
+    match t.splitOn "=" with
+    | key :: rest => if key = k ∧ ¬ rest.isEmpty then some ("=".intercalate rest) else none
+    | _ => none
+
+def kvD (toks : List String) (k : String) (d : String := "_") : String := (kv toks k).getD d
+
+def parseSizes (s : String) : List Nat := if s = "[]" ∨ s = "_" then [] else (s.splitOn ",").filterMap String.toNat?
+
+def parseQ (s : String) : Option QKind :=
+  if s = "present" then some .present else if s = "absent" then some .absent
+  else if s = "star" then some .star else if s = "extra" then some .extra else none
+
+/-- label → (stage, names table u) -/
+def parseStage (label : String) : Option (Stage × Bool) :=
+  let other := label.endsWith ":u"
+  let base := if label.endsWith ":t" ∨ label.endsWith ":u" then (label.dropEnd 2).toString else label
+  let st : Option Stage :=
+    if base = "flush:freeze:before" then some .freezeBefore
+    else if base = "flush:freeze:after" then some .freezeAfter
+    else if base = "flush:batch:taken" then some .batchTaken
+    else if base = "flush:compact:swap:mid" then some .swapMid
+    else if base = "flush:batch:after" then some .batchAfter
+    else if base = "flush:handles:after" then some .handlesAfter
+    else if base = "flush:batching:done" then some .batchingDone
+    else if base = "flush:persist:files" then some .persistFiles
+    else if base = "flush:persist:after" then some .persistAfter
+    else if base = "flush:compact:swap:before" then some .swapBefore
+    else if base = "flush:compact:swap:after" then some .swapAfter
+    else if base = "flush:compact:files" then some .compactFiles
+    else if base = "flush:compact:prepare:after" then some .prepareAfter
+    else if base = "flush:compaction:done" then some .compactionDone
+    else if base = "flush:meta:after" then some .metaAfter
+    else if base = "flush:gc:partitions:after" then some .gcParts
+    else if base = "flush:gc:wal:after" then some .gcWal
+    else if base = "ingest:locked" then some .ingestLocked
+    else if base = "ingest:done" then some .ingestDone
+    else if base = "done" then some .done
+    else none
+  st.map (·, other)
+
+def parseScen (hold : Bool) (label : String) (toks : List String) : Option Scen := do
+  let (stage, other) ← parseStage label
+  let q ← parseQ (kvD toks "q")
+  pure { hold := hold, stage := stage, otherTable := other, disk := kvD toks "st" = "disk", ev := kvD toks "ev" = "1",
+         rs := kvD toks "rs" = "1", pre := parseSizes (kvD toks "pre"), buf := parseSizes (kvD toks "buf"),
+         x := kvD toks "x" = "1", two := kvD toks "two" = "1", midEvict := kvD toks "mid" = "evict", q := q,
+         ing2 := (kvD toks "ing2").toNat?, comp := ((kvD toks "comp").toNat?).getD 0 }
+
+/-! ## Specification (a relation on the observed answers) -/
+
+/-- `ok:<n>:<b.i,…>` → the cells. -/
+def parseOk (res : String) : Option (List String) :=
+  match res.splitOn ":" with
+  | ["ok", n, cells] =>
+      let cs := if cells = "" then [] else cells.splitOn ","
+      if n.toNat? = some cs.length then some cs else none
+  | _ => none
+
+def cellsOf (sizes : List Nat) (k : Nat) : List String :=
+  (List.range k).flatMap fun i => (List.range (sizes.getD i 0)).map fun r => toString (i + 1) ++ "." ++ toString r
+
+/-- The answer is exactly the first k batches, for some `lo ≤ k ≤ sizes.length`. -/
+def judge (sizes : List Nat) (lo : Nat) (res : String) : Option String :=
+  match parseOk res with
+  | none => some ("query-failed:" ++ ((res.splitOn ":").headD res))
+  | some cells =>
+      if (List.range (sizes.length + 1)).any (fun k => lo ≤ k ∧ cells = cellsOf sizes k) then none
+      else
+        -- say what is wrong
+        if cells.eraseDups.length ≠ cells.length then some "row-twice"
+        else if (cellsOf sizes lo).any (fun c => ¬ cells.contains c) then some "acknowledged-row-missing"
+        else if cells.any (fun c => ¬ (cellsOf sizes sizes.length).contains c) then some "unknown-row"
+        else some "not-a-batch-whole-prefix"
+
+def specPlace (sc : Scen) (toks : List String) : String :=
+  let isIngest := sc.stage = .ingestLocked ∨ sc.stage = .ingestDone
+  let base := sc.pre ++ sc.buf
+  let i2 := kvD toks "i2"
+  let issued : List Nat :=
+    if isIngest then base ++ [sc.ing2.getD 2]
+    else match sc.ing2 with
+      | some n => if i2 = "_" then base else base ++ [n]
+      | none => base
+  let hit := kvD toks "hit" = "1"
+  let errs : List String :=
+    (if hit then
+      (if kvD toks "q1" = "blocked" then [] else ((judge issued base.length (kvD toks "q1")).map ("q1:" ++ ·)).toList)
+      ++ (if kvD toks "q2" = "_" then [] else
+            ((judge issued (if isIngest ∨ i2 ≠ "ok" then base.length else issued.length) (kvD toks "q2")).map ("q2:" ++ ·)).toList)
+      ++ (if i2 = "hang" ∨ i2 = "panic" then ["second-ingestion:" ++ i2] else [])
+     else [])
+    ++ (if kvD toks "fl" = "ok" then [] else ["parked-operation:" ++ kvD toks "fl"])
+    ++ ((judge issued issued.length (kvD toks "fin")).map ("final:" ++ ·)).toList
+  if errs.isEmpty then "OK" else "BAD " ++ ";".intercalate errs
+
+def specHold (sc : Scen) (toks : List String) : String :=
+  let base := sc.pre ++ sc.buf
+  let errs : List String :=
+    (if kvD toks "hit" = "1" then ((judge base base.length (kvD toks "qh")).map ("held-query:" ++ ·)).toList else [])
+    ++ (if kvD toks "fl" = "ok" then [] else ["flush:" ++ kvD toks "fl"])
+    ++ ((judge base base.length (kvD toks "fin")).map ("final:" ++ ·)).toList
+  if errs.isEmpty then "OK" else "BAD " ++ ";".intercalate errs
+
+def specStress (toks : List String) : String :=
+  let errs : List String :=
+    (if kvD toks "bad" = "0" then [] else ["queries:" ++ kvD toks "bad" ++ ":first=" ++ kvD toks "first"])
+    ++ (if kvD toks "fl" = "ok" then [] else ["flush:" ++ kvD toks "fl"])
+    ++ (if kvD toks "fin" = "ok" then [] else ["final:" ++ kvD toks "fin"])
+  if errs.isEmpty then "OK" else "BAD " ++ ";".intercalate errs
+
+/-! ## Model column -/
+
+def isFault (s : String) : Bool := ¬ (s.startsWith "ok:") ∧ s ≠ "_" ∧ s ≠ "ok" ∧ s ≠ "blocked" ∧ s ≠ "flushed"
+
+/-- Predicted fields up to and including the first predicted fault; the observation after it. -/
+def render (fields : List (String × String)) (toks : List String) : String :=
+  let rec go : List (String × String) → Bool → List String
+    | [], _ => []
+    | (k, v) :: rest, faulted =>
+        if faulted then (k ++ "=" ++ kvD toks k) :: go rest true
+        else (k ++ "=" ++ v) :: go rest (isFault v)
+  " ".intercalate (go fields false)
+
+def knownId : String := "c10-uncatalogued-partition-lookup"
+
+def step (line : String) : String :=
+  match splitTokens line with
+  | "place" :: label :: toks =>
+      match parseScen false label toks with
+      | none => "bad-line\tbad-line"
+      | some sc =>
+          let p := predictPlace sc
+          let spec := specPlace sc toks
+          let model :=
+            if p.stuck then "model-stuck"
+            else if kvD toks "hit" ≠ "1" then "?"
+            else render [("q1", p.q1), ("i2", p.i2), ("q2", p.q2), ("fl", p.fl), ("fin", p.fin)] toks
+          model ++ "\t" ++ spec ++ (if p.faultPredicted ∧ sc.disk then "\t" ++ knownId else "")
+  | "hold" :: label :: toks =>
+      match parseScen true label toks with
+      | none => "bad-line\tbad-line"
+      | some sc =>
+          let p := predictHold sc
+          let spec := specHold sc toks
+          let model :=
+            if p.stuck then "model-stuck"
+            else if kvD toks "hit" ≠ "1" ∨ p.undetermined then "?"
+            else render [("qh", p.qh), ("fl", p.fl), ("fin", p.fin)] toks
+          model ++ "\t" ++ spec ++ (if p.faultPredicted ∧ sc.disk then "\t" ++ knownId else "")
+  | "stress" :: toks =>
+      -- judged by the specification only.  On a disk-backed database with evictions and queries for columns some
+      -- partitions lack, the open finding can strike at a random moment: covered only if EVERY bad verdict is a failed
+      -- query (never a wrong content) — a torn, duplicated or missing row is never excused.
+      let covered := kvD toks "st" = "disk" ∧ kvD toks "mode" = "rough" ∧ kvD toks "bad" ≠ "0" ∧ kvD toks "bad" = kvD toks "badq"
+        ∧ ¬ ((kvD toks "fin").startsWith "bad:") ∨ (kvD toks "st" = "disk" ∧ kvD toks "mode" = "rough" ∧ kvD toks "bad" ≠ "0"
+            ∧ kvD toks "bad" = kvD toks "badq" ∧ ((kvD toks "fin") = "bad:hang" ∨ (kvD toks "fin") = "bad:err:canceled"))
+      "?\t" ++ specStress toks ++ (if covered then "\t" ++ knownId else "")
+  | "lost" :: _ => "?\tBAD harness-child-lost"
+  | _ => "bad-line\tbad-line"
+
+end LM.DrvC10
+
+def main : IO Unit := LM.Proto.runDriver LM.DrvC10.step
